@@ -2482,6 +2482,18 @@ def check_C17(ctx):
         impl_g = sorted(X.d.genome_at.keys())
         model_g = sorted(P(p) for p in rep[0][1:])
         # vertical comparisons that raise (same genome twice, off-lineage) create nothing on either side
+        # ... and the two public listings (order is not part of the result: they are built from sets)
+        impl_ext = sorted(X.d.path[g.taxon] for g in X.ham.get_list_extant_genomes())
+        impl_anc = sorted(X.d.path[g.taxon] for g in X.ham.get_list_ancestral_genomes())
+        model_ext = sorted(P(p) for p in rep[2][1:])
+        model_anc = sorted(P(p) for p in rep[3][1:])
+        if impl_g == model_g and (impl_ext != model_ext or impl_anc != model_anc):
+            ctx.violation('session layer: get_list_extant_genomes / get_list_ancestral_genomes after the call history differ between '
+                          'model and implementation; props/C17.v: c17_extant_listing_unchanged no longer tied to the code',
+                          {'case': case_json(c), 'ops': [list(map(str, o)) for o in x_ops], 'impl_extant': impl_ext,
+                           'model_extant': model_ext, 'impl_ancestral': impl_anc, 'model_ancestral': model_anc, 'layer': 'session'},
+                          no_input=True)
+            continue
         if impl_g != model_g:
             ctx.violation('session layer: genomes existing after the call history differ between model and implementation; '
                           'props/C17.v: c17_genomes_only_grow no longer tied to the code',
